@@ -52,6 +52,8 @@ type Task struct {
 	waitSite  uint32
 
 	DoneCh chan struct{} // closed when the task function has returned
+	spin      int           // scheduling points passed in a row without giving up the baton
+	spinSleep time.Duration // last forced sleep of a spinning task
 }
 
 // Node is a simulated process: a name, an incarnation counter and a liveness flag.
@@ -529,15 +531,38 @@ func (s *Sim) yield(site uint32, p float64) {
 		s.trace = append(s.trace, fmt.Sprintf("  draw %s site=%d v=%d", t.ID, site, v))
 	}
 	if v == 0 {
+		// A task that passes thousands of scheduling points without ever parking is spinning (a busy retry
+		// loop in the code under test). On a machine its peers run in parallel and the clock moves; here it
+		// would keep the baton for ever at the same simulated instant. It is made to sleep, a little longer
+		// each time: the others get to run and deadlines come closer. A function of counts only - replays.
+		t.spin++
+		if t.spin >= spinLimit {
+			t.spin = 0
+			if t.spinSleep == 0 {
+				t.spinSleep = time.Millisecond
+			} else if t.spinSleep < time.Second {
+				t.spinSleep *= 2
+			}
+			d := t.spinSleep
+			s.Probes["spinning_task_preempted"]++
+			s.mu.Unlock()
+			t.waitSite = site
+			time.Sleep(d)
+			AfterBlock(t)
+			return
+		}
 		s.mu.Unlock()
 		return
 	}
+	t.spin = 0
 	t.choice = v
 	t.state = stRunnable
 	t.waitSite = site
 	s.mu.Unlock()
 	s.park(t)
 }
+
+const spinLimit = 20000
 
 // Yield is a scheduling point in front of a synchronisation operation.
 func Yield(site uint32) {
@@ -594,6 +619,7 @@ func AfterBlock(t *Task) {
 		return
 	}
 	t.state = stRunnable
+	t.spin = 0 // it did block: not spinning
 	s.mu.Unlock()
 	s.pokeSched()
 	s.park(t)
